@@ -143,8 +143,9 @@ fn timed(r: &Rec, serial: u64) -> TimedMessage {
         timestamp: r.ts,
         frame: vec![],
         message: Some(r.msg.clone()),
-        metadata: vec![SensorMetadata { system_timestamp: r.ts, gnss_timestamp: None, nanoseconds: None, rssi: None, serial, name: None }],
+        metadata: vec![SensorMetadata { system_timestamp: r.ts, gnss_timestamp: None, nanoseconds: None, rssi: None, serial, name: None, ..Default::default() }],
         decode_time: None,
+        ..Default::default()
     }
 }
 
@@ -187,7 +188,7 @@ pub fn pool_for(addrs: [u32; 3], kinds: Vec<&'static str>, depth: usize, equal_s
                 let ts = if equal_stamps { 1000.5 } else { 1000.25 + 3.0 * pos as f64 };
                 per_pos.push(make(k, *a, t).map(|msg| {
                     let mut lv = BTreeSet::new();
-                    let mut tm = TimedMessage { timestamp: ts, frame: vec![], message: Some(msg.clone()), metadata: vec![], decode_time: None };
+                    let mut tm = TimedMessage { timestamp: ts, frame: vec![], message: Some(msg.clone()), metadata: vec![], decode_time: None, ..Default::default() };
                     let v = serde_json::to_value(&tm).unwrap_or(Value::Null);
                     let shown = v.get("icao24").and_then(|x| x.as_str()).map(String::from);
                     leaves(&v, &mut lv);
@@ -264,7 +265,7 @@ pub fn fleet_history(n: usize, kind: &str) -> Vec<Rec> {
         let a = 0x100000 + 0x000101 * i as u32;
         if let Some(msg) = make(kind, a, 10 + (i % 7) as u32) {
             let ts = 1000.25 + pos as f64;
-            let tm = TimedMessage { timestamp: ts, frame: vec![], message: Some(msg.clone()), metadata: vec![], decode_time: None };
+            let tm = TimedMessage { timestamp: ts, frame: vec![], message: Some(msg.clone()), metadata: vec![], decode_time: None, ..Default::default() };
             let v = serde_json::to_value(&tm).unwrap_or(Value::Null);
             let mut lv = BTreeSet::new();
             leaves(&v, &mut lv);
